@@ -15,7 +15,9 @@ for d in sorted(glob.glob(os.path.join(VERIF, "seeded", "*-%s-*" % tag))):
     head = re.sub(r"\s+", " ", head)[:170]
     fc = m.get("first_contact", {})
     fc_ok = any(v.get("exit") == 1 for v in fc.values())
-    fc_txt = "caught" if fc_ok else ("exit 2 (construct not modelled)" if any(v.get("exit") == 2 for v in fc.values()) else "missed")
+    if m.get("first_contact_note"):
+        fc_ok = False
+    fc_txt = "not evaluated (harness written first)" if m.get("first_contact_note") else "caught" if fc_ok else ("exit 2 (construct not modelled)" if any(v.get("exit") == 2 for v in fc.values()) else "missed")
     now = m.get("checks_run", {})
     by = ", ".join("%s (%d s)" % (p, v["seconds"]) for p, v in now.items() if v.get("exit") == 1) or "NOT CAUGHT"
     first += fc_ok
